@@ -19,7 +19,7 @@ func init() {
 			"R3 dispatch agreement — the first-token set of parseDDL / parseDMLInternal / the query path is included in the guard under which parseStatementInternal routes to it, and the specific entry points reach the same internal productions as ParseStatement. " +
 			"R4 the list entry points hand the generic parseStatements the same production their single-statement sibling calls. " +
 			"Decides: contradictions between a guard and what it guards. Does not decide: acceptance of every sentence of the reference grammar.",
-		Rules: []ruleFn{ruleC08R1, ruleC08R2, ruleC08R3, ruleC08R4, ruleC08R5, ruleC08R6, ruleC08R7, ruleC11R4, ruleC16R3, ruleC08R8, ruleC14R3, ruleC08R9},
+		Rules: []ruleFn{ruleC08R1, ruleC08R2, ruleC08R3, ruleC08R4, ruleC08R5, ruleC08R6, ruleC08R7, ruleC11R4, ruleC16R3, ruleC08R8, ruleC14R3, ruleC08R9, ruleC08R10},
 	})
 }
 
@@ -954,4 +954,185 @@ func ruleC08R9(w *World, r *Report) {
 	if nbad == 0 {
 		r.ok(rule, "spelling-dependent raises", "-", fmt.Sprintf("%d spelling reads followed, %d branches depend on them, none leads straight to a raise", len(srcs), nIf))
 	}
+}
+
+// ruleC08R10: a backtracking alternative that answers "no" has consumed nothing. A function that saves the lexer
+// (`lexer := p.Lexer.Clone()`) and puts it back on some path (`p.Lexer = lexer`) is an alternative tried in front of
+// others; its "no" (every result nil / false) hands the input to the next alternative of the caller, which has to find
+// the token the attempt started on. On every path from the clone to such a return, the last thing that touched the lexer
+// is therefore the restore — `SELECT ON <table>` handed to parsePrivilegeOnTable with `SELECT ON` already consumed is
+// rejected although it is a sentence.
+func ruleC08R10(w *World, r *Report) {
+	const rule = "C08/R10"
+	r.rule(rule, "backtracking alternatives restore on every \"no\": in every parser function that clones Parser.Lexer into a local and stores that clone back on some path, no return of all-zero results (nil / false) is reached from the clone through a token-consuming call without the restore in between (look-aheads with a deferred rewind consume nothing and are C08/R6's subject)", 2)
+	tk := w.TKAI()
+	if miss := tk.anchorsOK(); len(miss) > 0 {
+		r.errorf("TKAI anchors missing: %v", miss)
+		return
+	}
+	for _, fn := range w.ModFns {
+		if fnPkgPath(fn) != modRoot || fn.Parent() != nil || fn.Blocks == nil {
+			continue
+		}
+		if _, ok := tk.deferredRestore(fn); ok {
+			continue
+		}
+		clones := map[ssa.Value]bool{}
+		for _, b := range fn.Blocks {
+			for _, in := range b.Instrs {
+				c, ok := in.(*ssa.Call)
+				if !ok || len(c.Call.Args) != 1 {
+					continue
+				}
+				callee := c.Call.StaticCallee()
+				if callee == nil || callee.Name() != "Clone" {
+					continue
+				}
+				if addr, isL := isLoad(c.Call.Args[0]); isL && w.parserFieldAddr(addr, "Lexer") {
+					clones[c] = true
+				}
+			}
+		}
+		if len(clones) == 0 {
+			continue
+		}
+		isRestore := func(in ssa.Instruction) bool {
+			st, ok := in.(*ssa.Store)
+			return ok && w.parserFieldAddr(st.Addr, "Lexer") && clones[st.Val]
+		}
+		nRestore := 0
+		for _, b := range fn.Blocks {
+			for _, in := range b.Instrs {
+				if isRestore(in) {
+					nRestore++
+				}
+			}
+		}
+		if nRestore == 0 {
+			continue
+		}
+		consumes := func(in ssa.Instruction) bool {
+			ci, ok := in.(ssa.CallInstruction)
+			if !ok {
+				return false
+			}
+			if _, isDefer := in.(*ssa.Defer); isDefer {
+				return false
+			}
+			for _, callee := range w.Callees(ci) {
+				if callee.Name() == "Clone" || !tk.touchesLexer(callee) {
+					continue
+				}
+				if _, la := tk.deferredRestore(callee); la {
+					continue
+				}
+				return true
+			}
+			return false
+		}
+		afterClone := func(in ssa.Instruction) bool {
+			for c := range clones {
+				cb, ib := c.(*ssa.Call).Block(), in.Block()
+				if (cb == ib && indexOf(cb, c.(*ssa.Call)) < indexOf(ib, in)) || (cb != ib && cb.Dominates(ib)) {
+					return true
+				}
+			}
+			return false
+		}
+		// backward from a "no": the first lexer-touching instruction met on each path
+		type start struct {
+			b   *ssa.BasicBlock
+			idx int // instructions [0, idx) of b are walked
+		}
+		search := func(s start) ssa.Instruction {
+			seen := map[*ssa.BasicBlock]bool{}
+			var walk func(b *ssa.BasicBlock, idx int) ssa.Instruction
+			walk = func(b *ssa.BasicBlock, idx int) ssa.Instruction {
+				for i := idx - 1; i >= 0; i-- {
+					in := b.Instrs[i]
+					if isRestore(in) {
+						return nil
+					}
+					if v, ok := in.(ssa.Value); ok && clones[v] {
+						return nil
+					}
+					if consumes(in) && afterClone(in) {
+						return in
+					}
+				}
+				for _, p := range b.Preds {
+					if seen[p] {
+						continue
+					}
+					seen[p] = true
+					if bad := walk(p, len(p.Instrs)); bad != nil {
+						return bad
+					}
+				}
+				return nil
+			}
+			return walk(s.b, s.idx)
+		}
+		isZero := func(v ssa.Value) bool {
+			c, ok := v.(*ssa.Const)
+			if !ok {
+				return false
+			}
+			if c.Value == nil {
+				return true
+			}
+			bv, isB := constBool(c)
+			return isB && !bv
+		}
+		nNo := 0
+		var bad []string
+		for _, b := range fn.Blocks {
+			ret, ok := b.Instrs[len(b.Instrs)-1].(*ssa.Return)
+			if !ok || len(ret.Results) == 0 {
+				continue
+			}
+			var starts []start
+			allConst := true
+			for _, res := range ret.Results {
+				if !isZero(res) {
+					allConst = false
+				}
+			}
+			if allConst {
+				starts = append(starts, start{b, len(b.Instrs) - 1})
+			} else if len(ret.Results) == 1 {
+				if phi, isPhi := ret.Results[0].(*ssa.Phi); isPhi && phi.Block() == b {
+					for i, e := range phi.Edges {
+						if isZero(e) {
+							starts = append(starts, start{b.Preds[i], len(b.Preds[i].Instrs)})
+						}
+					}
+				}
+			}
+			for _, s := range starts {
+				nNo++
+				if in := search(s); in != nil {
+					bad = append(bad, fmt.Sprintf("the \"no\" at %s is reached after %s at %s without Parser.Lexer being put back", w.pos(ret.Pos()), calleeText(w, in), w.pos(in.Pos())))
+				}
+			}
+		}
+		if nNo == 0 {
+			continue
+		}
+		construct := "backtracking alternative " + funcName(fn)
+		if len(bad) > 0 {
+			r.bad(rule, construct, w.pos(fn.Pos()), strings.Join(uniqSorted(bad), "; ")+": the caller's next alternative starts in the middle of the attempt")
+		} else {
+			r.ok(rule, construct, w.pos(fn.Pos()), fmt.Sprintf("%d \"no\" return(s), each preceded by the restore or by no consumption since the clone", nNo))
+		}
+	}
+}
+
+func calleeText(w *World, in ssa.Instruction) string {
+	if ci, ok := in.(ssa.CallInstruction); ok {
+		if f := ci.Common().StaticCallee(); f != nil {
+			return "a call of " + funcName(f)
+		}
+	}
+	return "a consuming call"
 }
